@@ -386,16 +386,20 @@ class AdaptivePolicy:
         return self._tokens
 
     def _refill(self, now: Instant) -> None:
-        if self._last_refill_time is None:
-            self._last_refill_time = now
-            return
-        elapsed = (now - self._last_refill_time).to_seconds()
-        if elapsed <= 0:
-            return
         # The bucket must be able to hold at least one whole token, otherwise
         # try_acquire (which needs tokens >= 1.0) could never succeed again
         # once current_rate * window_size drops below 1.
         max_tokens = max(1.0, self._current_rate * self._window_size)
+        if self._last_refill_time is None:
+            self._last_refill_time = now
+            self._tokens = min(max_tokens, self._tokens)
+            return
+        elapsed = (now - self._last_refill_time).to_seconds()
+        if elapsed <= 0:
+            # No time has passed, but the rate may have been decreased since
+            # the last refill: the balance must still respect the current cap.
+            self._tokens = min(max_tokens, self._tokens)
+            return
         self._tokens = min(max_tokens, self._tokens + elapsed * self._current_rate)
         self._last_refill_time = now
 
